@@ -38,7 +38,16 @@ impl<const N: usize, Value> IndexMap<N, Value> {
 
     #[inline(always)]
     pub(crate) unsafe fn delete(&mut self, index: usize) {
-        *self.index.get_unchecked_mut(index) = Self::NULL
+        let position = *self.index.get_unchecked(index);
+        if position != Self::NULL {
+            /* really remove the entry: a stale one would be yielded again by `iter`
+               once the same `index` is `set` again, and would eat up `u8` positions */
+            self.values.remove(position as usize);
+            for idx in &mut self.index {
+                if *idx != Self::NULL && *idx > position {*idx -= 1}
+            }
+            *self.index.get_unchecked_mut(index) = Self::NULL
+        }
     }
 
     #[inline(always)]
